@@ -450,6 +450,7 @@ pub fn subs() -> Vec<Box<dyn DynSub>> {
         sub(Sub { name: "c06.instants", source: Source::Gen(inst_strategy, 3_000_000, 20_000_000), oracle: inst_oracle, known: no_known, hang_is_violation: false }),
         sub(Sub { name: "c06.accessors", source: Source::Gen(acc_strategy, 1_000_000, 5_000_000), oracle: acc_oracle, known: no_known, hang_is_violation: false }),
         sub(Sub { name: "c06.providers", source: Source::Gen(prov_strategy, 16_000, 128_000), oracle: prov_oracle, known: no_known, hang_is_violation: false }),
+        crate::props::chain::c06_chain(),
         crate::props::fuzzsub::fc06(),
     ]
 }
